@@ -91,7 +91,7 @@ func VH_C17_isolation() {
 		clean = clean && len(kd.KeyInfo.X509Data.X509Certificates) == 1
 	}
 	clean = clean && len(md2.SPSSODescriptor.AssertionConsumerServices) == 1
-	vAssert("C17.mutating-a-returned-result-does-not-affect-later-results", clean)
+	vAssert("C17,C19.mutating-a-returned-result-does-not-affect-later-results", clean)
 	vAssert("C17.no-package-level-state-written", vGlobalWrites() == 0)
 }
 
